@@ -329,63 +329,108 @@ func runC17(c *Ctx) {
 	wp := c.fn(ffl, "transaction", "writePendingAndCommit")
 	if wp != nil {
 		wb := callPred(R{ffl, "blockStore", "writeBlock"})
-		calls := ssau.CallsIn(wp, wb)
-		var rb *ssa.Function
+		hrb := callPred(R{ffl, "blockStore", "handleRollback"})
+		// the block loop may live in a helper of the transaction that writePendingAndCommit calls; the first write
+		// is then that call
+		host, via := c.relocateVia(wp, func(g *ssa.Function) bool { return len(ssau.CallsIn(g, wb)) > 0 })
+		calls := ssau.CallsIn(host, wb)
+		var firstW ssa.Instruction
+		if via != nil {
+			firstW = via
+		} else if len(calls) > 0 {
+			firstW = calls[0]
+		}
+		// rollback operations in writePendingAndCommit: handleRollback itself or a closure that calls it
+		rbClosures := map[*ssa.Function]bool{}
 		for _, a := range wp.AnonFuncs {
-			if len(ssau.CallsIn(a, callPred(R{ffl, "blockStore", "handleRollback"}))) > 0 {
-				rb = a
+			if len(ssau.CallsIn(a, hrb)) > 0 {
+				rbClosures[a] = true
 			}
 		}
-		if len(calls) == 0 || rb == nil {
-			c.R.Check("G-commit", "writePendingAndCommit|rollback closure", false, c.pos(wp.Pos()), "writeBlock call or rollback closure not found")
-		} else {
-			isRB := func(cm *ssa.CallCommon) bool {
-				if mc, ok := cm.Value.(*ssa.MakeClosure); ok {
-					return mc.Fn == ssa.Value(rb)
-				}
-				return cm.StaticCallee() == rb
+		isRB := func(cm *ssa.CallCommon) bool {
+			if hrb(cm) {
+				return true
 			}
+			if mc, ok := cm.Value.(*ssa.MakeClosure); ok {
+				if f, ok := mc.Fn.(*ssa.Function); ok && rbClosures[f] {
+					return true
+				}
+			}
+			return rbClosures[cm.StaticCallee()]
+		}
+		rbSites := ssau.CallsIn(wp, isRB)
+		if firstW == nil || len(rbSites) == 0 {
+			c.R.Check("G-commit", "writePendingAndCommit|rollback closure", false, c.pos(wp.Pos()), "writeBlock call or rollback of the block files not found")
+		} else {
 			cut := ssau.NewCut()
-			for _, ci := range ssau.CallsIn(wp, isRB) {
+			for _, ci := range rbSites {
 				cut.AddInstr(ci)
 			}
-			ra := ssau.ReachAfter(wp, calls[0], cut)
+			ra := ssau.ReachAfter(wp, firstW, cut)
 			ec := &ssau.ExitClassifier{Fn: wp, Idx: 0}
 			bad := ""
 			for _, ret := range ec.FailExitsIn(ra, cut) {
 				bad = c.posOf(ret)
 			}
-			c.R.Check("G-commit", "writePendingAndCommit|error exits roll the block files back", bad == "", c.posOf(calls[0]), fmt.Sprintf("error return reachable after writeBlock without rollback(): %q", bad))
-			// rollback closure arguments: captured loads of the cursor taken before the first write
-			for _, h := range ssau.CallsIn(rb, callPred(R{ffl, "blockStore", "handleRollback"})) {
-				a := h.Common().Args
-				names := []string{}
-				for _, x := range a[1:] {
-					names = append(names, freeVarName(x))
-				}
-				c.R.Check("G-commit", "writePendingAndCommit|rollback arguments", strings.Join(names, ",") == "oldBlkFileNum,oldBlkOffset", c.posOf(h), "handleRollback(oldBlkFileNum, oldBlkOffset) with the captured pre-write cursor: "+strings.Join(names, ","))
+			c.R.Check("G-commit", "writePendingAndCommit|error exits roll the block files back", bad == "", c.posOf(firstW), fmt.Sprintf("error return reachable after writeBlock without rollback(): %q", bad))
+			// rollback arguments: the cursor fields read before the first write (directly, or captured by the closure)
+			var hcalls []ssa.CallInstruction
+			hcalls = append(hcalls, ssau.CallsIn(wp, hrb)...)
+			for a := range rbClosures {
+				hcalls = append(hcalls, ssau.CallsIn(a, hrb)...)
 			}
-			// the captured values are loads of the cursor fields that dominate the first writeBlock
-			for _, b := range wp.Blocks {
-				for _, in := range b.Instrs {
-					mc, ok := in.(*ssa.MakeClosure)
-					if !ok || mc.Fn != ssa.Value(rb) {
-						continue
-					}
-					okCap := 0
-					for _, bind := range mc.Bindings {
-						al, ok := bind.(*ssa.Alloc)
-						if !ok {
-							continue
+			resolve := func(x ssa.Value) ssa.Value {
+				// a captured variable: the single value stored into its cell by writePendingAndCommit
+				if ld, ok := x.(*ssa.UnOp); ok && ld.Op == token.MUL {
+					if fv, ok := ld.X.(*ssa.FreeVar); ok {
+						fn := fv.Parent()
+						for _, b := range wp.Blocks {
+							for _, in := range b.Instrs {
+								mc, ok := in.(*ssa.MakeClosure)
+								if !ok || mc.Fn != ssa.Value(fn) {
+									continue
+								}
+								for k, f := range fn.FreeVars {
+									if f == fv && k < len(mc.Bindings) {
+										if al, ok := mc.Bindings[k].(*ssa.Alloc); ok {
+											if sts := ssau.StoresInto(al); len(sts) == 1 {
+												return sts[0].Val
+											}
+										}
+									}
+								}
+							}
 						}
-						sts := ssau.StoresInto(al)
-						if len(sts) == 1 && (fieldIs("writeCursor", "curFileNum")(sts[0].Val) || fieldIs("writeCursor", "curOffset")(sts[0].Val)) &&
-							sts[0].Block().Dominates(calls[0].Block()) && !ssau.LoopBody(ssau.EnclosingLoopHeader(calls[0].Block()))[sts[0].Block()] {
-							okCap++
+					}
+					if al, ok := ld.X.(*ssa.Alloc); ok {
+						if sts := ssau.StoresInto(al); len(sts) == 1 {
+							return sts[0].Val
 						}
 					}
-					c.R.Check("G-commit", "writePendingAndCommit|rollback point read before writing", okCap == 2, c.posOf(mc), fmt.Sprintf("%d of 2 cursor fields captured before the first writeBlock", okCap))
 				}
+				return x
+			}
+			before := func(v ssa.Value) bool {
+				in, ok := v.(ssa.Instruction)
+				if !ok || in.Parent() != wp {
+					return false
+				}
+				if !in.Block().Dominates(firstW.Block()) {
+					return false
+				}
+				if H := ssau.EnclosingLoopHeader(firstW.Block()); H != nil && ssau.LoopBody(H)[in.Block()] {
+					return false
+				}
+				return !ssau.ReachAfter(wp, firstW, nil).Instr(in)
+			}
+			for _, h := range hcalls {
+				a := h.Common().Args
+				ok := len(a) == 3
+				if ok {
+					f0, f1 := resolve(a[1]), resolve(a[2])
+					ok = fieldIs("writeCursor", "curFileNum")(f0) && fieldIs("writeCursor", "curOffset")(f1) && before(f0) && before(f1)
+				}
+				c.R.Check("G-commit", "writePendingAndCommit|rollback arguments", ok, c.posOf(h), "handleRollback(file, offset) receives the write cursor's curFileNum and curOffset as read before the first block was written")
 			}
 		}
 		// write cursor row before cache commit
@@ -396,13 +441,21 @@ func runC17(c *Ctx) {
 			}
 			return ssau.DependsOn(cm.Args[1], func(x ssa.Value) bool { g, ok := x.(*ssa.Global); return ok && g.Name() == "writeLocKeyName" })
 		}
-		c.checkedBefore("G-commit", "writePendingAndCommit|write-cursor row persisted before the cache commit", wp, "metaBucket.Put(writeLocKeyName, row)", rowPut, "cache.commitTx", callPred(R{ffl, "dbCache", "commitTx"}))
-		for _, call := range ssau.CallsIn(wp, namedCall("serializeWriteRow")) {
+		rowHost, rowVia := c.relocateVia(wp, func(g *ssa.Function) bool { return len(ssau.CallsIn(g, rowPut)) > 0 })
+		if rowVia == nil {
+			c.checkedBefore("G-commit", "writePendingAndCommit|write-cursor row persisted before the cache commit", wp, "metaBucket.Put(writeLocKeyName, row)", rowPut, "cache.commitTx", callPred(R{ffl, "dbCache", "commitTx"}))
+		} else {
+			// the row is written by a helper: its success exits pass the checked Put, and the cache commit is behind
+			// the helper's success
+			c.exitMustPass("G-commit", "writePendingAndCommit|write-cursor row persisted before the cache commit", rowHost, "metaBucket.Put(writeLocKeyName, row)", rowPut, true)
+			c.checkedBefore("G-commit", "writePendingAndCommit|write-cursor row persisted before the cache commit", wp, rowHost.Name()+"()", func(cm *ssa.CallCommon) bool { return cm.StaticCallee() == rowHost }, "cache.commitTx", callPred(R{ffl, "dbCache", "commitTx"}))
+		}
+		for _, call := range ssau.CallsIn(rowHost, namedCall("serializeWriteRow")) {
 			a := call.Common().Args
 			okArgs := fieldIs("writeCursor", "curFileNum")(a[0]) && fieldIs("writeCursor", "curOffset")(a[1])
 			// the loads are taken after the block loop
 			after := true
-			for _, w := range calls {
+			for _, w := range ssau.CallsIn(rowHost, wb) {
 				H := ssau.EnclosingLoopHeader(w.Block())
 				if H != nil && ssau.LoopBody(H)[call.Block()] {
 					after = false
@@ -410,6 +463,10 @@ func runC17(c *Ctx) {
 				if call.Block().Dominates(w.Block()) {
 					after = false
 				}
+			}
+			if rowHost != host && len(ssau.CallsIn(rowHost, wb)) == 0 {
+				// the row is built in another function than the block loop: it must run after the loop's function
+				after = false
 			}
 			c.R.Check("G-commit", "writePendingAndCommit|row = cursor after the block loop", okArgs && after, c.posOf(call), "serializeWriteRow(wc.curFileNum, wc.curOffset) evaluated after all blocks were written")
 		}
